@@ -18,7 +18,7 @@ def describe(tier):
         "rule": "for every C10 input: bytes written by IndxIO.save == bytes of an independent encoder written from the class docstring; the "
         "independent decoder recovers the input from the saved bytes; IndxIO.load recovers the input from independently encoded bytes for every "
         "index word size {1,2,4,8} >= needed and every row-id word size {1,2,4,8} the values permit (and both header conventions for the "
-        "dimension byte of an entry-less file). Saving with a 1-/2-/8-byte row-id dtype (entry lengths around 255/256 and 65535/65536): the library may refuse, but a file it writes must decode to the input. Narrow row-id words: independently encoded files with 1- and 2-byte row-id words whose total row-id count exceeds 255 / 65535 (%r). Entries of very different lengths in one file (every ordered pair of lengths from %r, and short/long/short, long/empty/short, short/long/long triples). Size field: sparse stand-in arrays (len/dtype/tofile=seek) with row-id totals %r and %r: the 8-byte "
+        "dimension byte of an entry-less file). Saving with a 1-/2-/8-byte row-id dtype (entry lengths around 255/256 and 65535/65536): the library may refuse, but a file it writes must decode to the input. Narrow row-id words: independently encoded files with 1- and 2-byte row-id words whose total row-id count exceeds 255 / 65535 (%r). Every fifth case is also saved with its coordinates and common value as NumPy integer scalars (uint8 .. uint64, int32, int64) and must give the same bytes. Entries of very different lengths in one file (every ordered pair of lengths from %r, and short/long/short, long/empty/short, short/long/long triples). Size field: sparse stand-in arrays (len/dtype/tofile=seek) with row-id totals %r and %r: the 8-byte "
         "size word must equal final file position - 16 and save must not raise. Non-trivial as in C10, or an alternative word size was loaded." % (NARROW, indx.MIXED_LENGTHS, BIG_SINGLE, BIG_MULTI),
         "bounds": {"row_id_totals": [str(x) for x in BIG_SINGLE] + [str(sum(x)) for x in BIG_MULTI]},
         "exhaustive": True,
@@ -130,6 +130,34 @@ def check_case(keys, arrays, common, acc, case=None, alt_words=True):
     return n_alt
 
 
+def check_scalar_keys(keys, arrays, common, conv_name, acc):
+    """The same entries with the coordinates and the common value as NumPy integer scalars of a given type (what numpy.unique over a uint16 /
+    uint32 / int64 column hands out): the file must still be byte-for-byte the documented layout with the NARROWEST words."""
+    from catii.indxio import IndxIO
+
+    conv = getattr(numpy, conv_name)
+    mx = max([common] + [c for k in keys for c in k])
+    if mx > numpy.iinfo(conv).max:
+        return False
+    case = {"keys": keys, "arrays": arrays, "common": common, "scalar_type": conv_name}
+    entries = {tuple(conv(c) for c in k): numpy.array(a, dtype=numpy.uint32) for k, a in zip(keys, arrays)}
+    path = os.path.join(indx.scratch_dir(), "sk-%d.indx" % os.getpid())
+    try:
+        with open(path, "wb") as f:
+            IndxIO.save(f, entries, conv(common), numpy.dtype(numpy.uint32))
+        blob = open(path, "rb").read()
+    except Exception as e:  # noqa
+        acc.violation("save:raised", case, repr(e))
+        return True
+    mine = indx.encode(keys, arrays, common)
+    if blob != mine:
+        acc.violation("bytes:differ", case, "library %s != documented layout %s" % (blob.hex()[:400], mine.hex()[:400]))
+    return True
+
+
+SCALAR_TYPES = ["uint8", "uint16", "uint32", "uint64", "int64", "int32"]
+
+
 class Sparse:
     """Stand-in for a huge uint32 row-id array: has a length and a dtype, writes by seeking."""
 
@@ -201,7 +229,9 @@ def run_block(family, p, acc):
         return
     from .c10 import nontrivial
 
-    for keys, arrays, common in indx.cases_of_block(p):
+    for ci, (keys, arrays, common) in enumerate(indx.cases_of_block(p)):
+        if ci % 5 == 0 and check_scalar_keys(keys, arrays, common, SCALAR_TYPES[(ci // 5) % len(SCALAR_TYPES)], acc):
+            acc.count("scalar_key_files")
         n_alt = check_case(keys, arrays, common, acc)
         acc.count("independent_files_loaded", n_alt)
         acc.case((tuple(keys), tuple(map(tuple, arrays)), common), nontrivial=nontrivial(keys, arrays, common) or n_alt > 1,
@@ -212,7 +242,9 @@ def replay(case, site=None):
     from ..core import Acc
 
     acc = Acc(ID, [], stop_at_first=False)
-    if "mixed_lengths" in case:
+    if "scalar_type" in case:
+        check_scalar_keys([tuple(k) for k in case["keys"]], case["arrays"], case["common"], case["scalar_type"], acc)
+    elif "mixed_lengths" in case:
         lengths = case["mixed_lengths"]
         check_case(indx.mixed_keys(lengths), indx.mixed_arrays(lengths), 3, acc, case={"mixed_lengths": lengths}, alt_words=False)
     elif "save_rowid_word" in case:
